@@ -63,3 +63,6 @@ PROPS["C16"] = {
                     "keys only vanish during the run (no key is created or modified at the source)",
                     "after a log.Panic in one stage the real process exits; the harness lets the other stages drain, the model does the same"],
 }
+
+# wall time is dominated by real timers / per-configuration groups: no budget escalation on source changes
+PROPS["C16"]["escalate"] = False
